@@ -28,7 +28,7 @@ for d in sorted(glob.glob(ROOT + "/seeded/*/")):
     meta = json.load(open(d + "meta.json"))
     r = res.get("seeded-" + name, {})
     fired = ", ".join(x.split(".", 1)[1] for x in r.get("fired", [])[:3]) or "—"
-    ok = "" if r.get("as_expected") else " **MISSED**"
+    ok = "" if r.get("as_expected") else (" **MISSED**" if r else " (not in the last full run)")
     needs = str(meta.get("needs_to_manifest", "")).replace("|", "/").replace("\n", " ")[:170]
     out.append(f"| {name} | {meta['property']} | {touched(d + 'patch.diff')} | {needs} | {fired}{ok} |")
 out.append("")
@@ -44,11 +44,11 @@ for p in sorted(glob.glob(ROOT + "/mutants/*.patch")):
         neutral.append((name, r))
         continue
     fired = ", ".join(r.get("fired", [])[:3]) or "—"
-    ok = "" if r.get("as_expected") else " **MISSED**"
+    ok = "" if r.get("as_expected") else (" **MISSED**" if r else " (not in the last full run)")
     out.append(f"| {name} | {exp} | {fired}{ok} |")
 out.append("")
 out.append(f"**Behaviour-preserving patches** ({len(neutral)}; every claimed check must stay silent): " +
-           ", ".join(n + ("" if r.get("as_expected") else " **FALSE ALARM**") for n, r in neutral) + ".")
+           ", ".join(n + ("" if r.get("as_expected") else (" **FALSE ALARM**" if r else " (not in the last full run)")) for n, r in neutral) + ".")
 tot = len(res); bad = sum(1 for r in res.values() if not r.get("as_expected"))
 out.append(f"\nLast full self-test: {tot} cases, {bad} not as expected.")
 table = "\n".join(out)
